@@ -1,5 +1,6 @@
 import JoblibModel.Tracker
 import JoblibModel.TrackerClient
+import JoblibModel.TrackerSignals
 import JoblibModel.IOUtil
 /-! Driver for C20 (model of `resource_tracker.main`, and of the client side composed with it). One request per line:
 
@@ -22,6 +23,11 @@ Client side (`JoblibModel.TrackerClient`: `stepOp`, `eof` over one `State` = mai
      | <files deleted during the operation while in use (the model's monitor `bad`), ','> | <dup 0|1>`
 * `C EOF` → the same shape with status `eof`: the last process is gone, `Tracker.finish` is applied to the disk
 An operation that the probe cannot issue for this configuration (`Op.wellFormed`) → `bad-op`.
+
+Signals (`JoblibModel.TrackerSignals.life`: the tracker as the launcher spawns it, `main`'s head as the code has it):
+* `S <pi 0|1> <pt 0|1> <a0> <a1> <a2> <a3>` → `alive` | `dead`   `pi`/`pt`: SIGINT / SIGTERM pending when `main` starts;
+  `a0..a3`: the signals arriving before the first statement, between the statements, and afterwards (command loop, EOF
+  clean-up) — words over `i` (SIGINT) and `t` (SIGTERM), `-` = none
 Anything else → `bad-op`. -/
 open JoblibModel JoblibModel.Tracker JoblibModel.IOUtil
 
@@ -162,9 +168,22 @@ def handleClient (st : St) : List String → St × String
         ({ st with cs := r.1 }, showClient (statusStr r.2) st.cs r.1)
       else (st, "bad-op")
 
+def sigs? (w : String) : Option (List TrackerSignals.Sig) :=
+  if w = "-" then some []
+  else w.toList.mapM (fun c => if c = 'i' then some .int else if c = 't' then some .term else none)
+
+def handleSignals : List String → String
+  | [pi, pt, a0, a1, a2, a3] =>
+    match bool? pi, bool? pt, sigs? a0, sigs? a1, sigs? a2, sigs? a3 with
+    | some pi, some pt, some a0, some a1, some a2, some a3 =>
+      if (TrackerSignals.life pi pt a0 a1 a2 a3).alive then "alive" else "dead"
+    | _, _, _, _, _, _ => "bad-op"
+  | _ => "bad-op"
+
 def handle (st : St) (line : String) : St × String :=
   match tokens line with
   | "C" :: ts => handleClient st ts
+  | "S" :: ts => (st, handleSignals ts)
   | ["RESET"] => ({ st with registry := Registry.empty, history := [] }, "reset")
   | ["T"] => (st, "rtypes " ++ joinSp (rtypes.map rtypeName))
   | ["EOF"] => (st, showActions (finish st.registry))
